@@ -223,6 +223,30 @@ fn main() {
             }
         }
     }
+    // Version::next (zonetree/in_memory/versioned.rs, through the cfg(domain_verif) hook; a
+    // Version of any value is obtained through its serde representation)
+    {
+        use domain::zonetree::verif_hooks::Version;
+        let mut vals: Vec<u32> = vec![0, 1, 0x7FFF_FFFE, 0x7FFF_FFFF, 0x8000_0000, 0xFFFF_FFFE, 0xFFFF_FFFF];
+        for _ in 0..(n_pairs / 40) { vals.push(interesting(&mut r)); }
+        for v in vals {
+            idx += 1;
+            if !out.wants(idx) { continue; }
+            let c = format!("next {}", v);
+            out.begin(&c);
+            let ver: Version = match serde_json::from_str(&format!("{}", v)) { Ok(x) => x, Err(e) => { out.check(false, "version_serde", &c, &e.to_string()); continue; } };
+            match catch(move || ver.next()) {
+                Ok(nx) => {
+                    let n: u32 = serde_json::to_string(&nx).ok().and_then(|t| t.parse().ok()).unwrap_or(0);
+                    out.case(&c, &format!("Ok {}", n), v == 0xFFFF_FFFF, "next");
+                    out.check(n == v.wrapping_add(1), "version_next_value", &c, &format!("{}", n));
+                    // the next version is strictly newer than this one in the order readers use
+                    out.check(ver.partial_cmp(&nx) == Some(Ordering::Less) && ver < nx && !(nx <= ver), "version_next_not_newer", &c, "");
+                }
+                Err(e) => { out.case(&c, "Panic", false, "next"); out.check(false, "version_next_panics", &c, &e); }
+            }
+        }
+    }
     // Serial from a point in time (jiff and chrono): seconds since the epoch mod 2^32
     {
         const JMIN: i64 = -377_705_023_201; const JMAX: i64 = 253_402_207_200; // jiff::Timestamp range
